@@ -585,6 +585,71 @@ func runC18(c *engine.Ctx) {
 	checkValidationExact(c, "R13")
 	checkLegacyConversion(c, "R14")
 
+	// ---- R16 decoding a registration does not change it: the message is read after it was logged / inspected ----
+	c.Rule("R16", "NewProxyConfigurerFromMsg (with the steps split out of it) and the UnmarshalFromMsg methods never write into the maps and slices of the message they decode (nor of a shallow copy of it, which shares them); defaulting a scalar field is not covered")
+	{
+		var fns []*ssa.Function
+		if f := fn(c, "pkg/config.NewProxyConfigurerFromMsg"); f != nil {
+			fns = append(fns, f)
+			fns = append(fns, allAnon(f)...)
+		}
+		for _, f := range c.P.RepoFuncs() {
+			if f.Parent() == nil && f.Name() == "UnmarshalFromMsg" && f.Pkg != nil && strings.HasSuffix(f.Pkg.Pkg.Path(), "/pkg/config/v1") {
+				fns = append(fns, f)
+			}
+		}
+		k := 0
+		for _, f := range fns {
+			msgParams := map[*ssa.Parameter]bool{}
+			root := f
+			for root.Parent() != nil {
+				root = root.Parent()
+			}
+			for _, pr := range root.Params {
+				if nn := engine.NamedOf(engine.Deref(pr.Type())); nn != nil && nn.Obj().Pkg() != nil && strings.HasSuffix(nn.Obj().Pkg().Path(), "/pkg/msg") {
+					msgParams[pr] = true
+				}
+			}
+			if len(msgParams) == 0 {
+				continue
+			}
+			k++
+			var bad []string
+			var badPos token.Pos
+			fromMsg := func(v ssa.Value) bool {
+				for pr := range engine.Provenance(v, engine.ProvOpts{NoArgs: true}).Params {
+					if msgParams[pr] {
+						return true
+					}
+				}
+				return false
+			}
+			engine.ForEachInstr(f, func(in ssa.Instruction) {
+				switch x := in.(type) {
+				case *ssa.MapUpdate:
+					if fromMsg(x.Map) {
+						bad, badPos = append(bad, "a map of the message is updated"), in.Pos()
+					}
+				case *ssa.Store:
+					// an element of a slice of the message (shared with every shallow copy)
+					if ia, ok := x.Addr.(*ssa.IndexAddr); ok {
+						if rootv, path := engine.FieldPath(ia.X); len(path) > 0 {
+							if pr, isP := rootv.(*ssa.Parameter); isP && msgParams[pr] {
+								bad, badPos = append(bad, "an element of a slice of the message is overwritten"), in.Pos()
+							}
+						}
+					}
+				}
+			})
+			if len(bad) > 0 {
+				c.Violate(c.P.FuncName(f)+">message-unchanged", badPos, bad, "decoding changes the message it decodes (%s): what the server acts on is no longer what the client sent", strings.Join(bad, "; "))
+			} else {
+				c.Hold(c.P.FuncName(f)+">message-unchanged", f.Pos(), 1, nil, "the message is only read")
+			}
+		}
+		c.Floor(k, 8)
+	}
+
 	// ---- R15 the textual writers of a bandwidth quantity return the literal its parser accepted ----
 	c.Rule("R15", "BandwidthQuantity.String and MarshalJSON derive their text from the stored literal (field s) only, and UnmarshalString stores its argument there on the success path: the parser truncates fractional quantities to bytes, so no rendering of the byte count re-parses to the same value for every accepted literal")
 	if sf := field(c, "pkg/config/types", "BandwidthQuantity", "s"); sf != nil {
@@ -709,7 +774,7 @@ func checkFlagTargets(c *engine.Ctx, rule string) {
 				"flag target is %s", how)
 		})
 	}
-	c.Floor(n, 60)
+	c.Floor(n, 30)
 }
 
 // checkStrictPlumbing (R10): "strict mode rejects unknown fields at every nesting level" in every file that is loaded.
@@ -989,7 +1054,7 @@ func checkJSONTags(c *engine.Ctx, pkgs []string) {
 			})
 		}
 	}
-	c.Floor(n, 40)
+	c.Floor(n, 20)
 }
 
 // checkLegacyConversion (C18.R14, shared as C03.R10 / C05.R10): the legacy (ini) configuration is converted field by
